@@ -43,6 +43,8 @@ def check_C04(res, tier, seed, replay):
             inputs.append((gens.reweight(rng, gens.complete(n), list(range(1, 40))), 1))
         for g in (gens.petersen(), gens.grid(3, 3), gens.hypercube(3), gens.wheel(6)):
             inputs.append((gens.reweight(rng, g, [1, 2, 3]), 1))
+        if not replay:
+            message_binding(res, exe, tier, seed, wd, gs)
         lines = [vlib.graph_line(i, g['n'], g['edges'], den) for i, (g, den) in enumerate(inputs)]
         Ps = '1,2,3,4,7' if tier == 'quick' else '1,2,3,4,5,6,8,13'
         trace = vlib.parallel_record(exe, lines, wd, 'mpi', extra=['--P', Ps, '--layouts', 'identity,reversed_odd,random', '--seeds', '2' if tier == 'quick' else '5', '--seed', str(seed)], timeout=3000)
@@ -98,6 +100,33 @@ def check_C04(res, tier, seed, replay):
             res.violation(facts, {'trace_segment': rj['segment'], 'spec': 'Trace_Mpi'})
     finally:
         shutil.rmtree(wd, ignore_errors=True)
+
+
+def message_binding(res, exe, tier, seed, wd, gs):
+    """Diagnostic layer (never a verdict): the messages that cross the collectives of every run on small graphs - the support
+    vector broadcast in each phase, every rank's contribution to each reduction, the scattered candidate chunks - must be a
+    behaviour of MC_Sva / MpiProto (Trace_MpiMsg.tla replays them through the model's own PhaseC action)."""
+    rng = random.Random(seed + 23)
+    sub = [g for g in gs if gens.csd(g) >= 1]
+    sub = sub[::(9 if tier == 'quick' else 2)]
+    sub += [g for g in gens.random_graphs(rng, 50 if tier == 'quick' else 700, 4, 7, 11, [[1], [1, 2], [1, 2, 3], list(range(1, 20))]) if gens.csd(g) >= 1]
+    sub += [gens.reweight(rng, gens.complete(5), ws) for ws in ([1], [1, 2], list(range(1, 30)))]
+    lines = [vlib.graph_line(300000 + i, g['n'], g['edges'], 1) for i, g in enumerate(sub)]
+    trace = vlib.parallel_record(exe, lines, wd, 'mpimsg', extra=['--msg', '--P', '1,2,3,5' if tier == 'quick' else '1,2,3,4,5,8', '--layouts', 'identity,random', '--seeds', '1' if tier == 'quick' else '3', '--seed', str(seed)], timeout=3000)
+    ev = vlib.count_events(trace)
+    if ev.get('LayoutError', 0):
+        raise vlib.HarnessError('%d LayoutError events in the message-level runs' % ev['LayoutError'])
+    v = vlib.validate_trace('Trace_MpiMsg', 'Trace_MpiMsg.cfg', trace, start_event='Run')
+    res.cov['states'] += v['states']
+    res.cov['transitions'] += v['transitions']
+    res.cov['traces_validated_against_impl'] += ev.get('Run', 0)
+    anomalies = [{'algo': r['call'].get('algo'), 'P': r['call'].get('P'), 'n': r['call'].get('n'), 'edges': r['call'].get('edges'), 'clauses': r['clauses'],
+                  'at_event': r['line'] - r['call_line']} for r in v['rejects']]
+    res.cov['message_binding'] = {'spec': 'Trace_MpiMsg.tla (MC_Sva PhaseC + MpiProto program, payloads logged by the vmpi shim)',
+                                  'runs': ev.get('Run', 0), 'collectives': ev.get('Coll', 0), 'message_anomalies': len(anomalies),
+                                  'note': 'diagnostic only: stronger than C04, never a VIOLATION by itself', 'anomaly_samples': anomalies[:3]}
+    for a in anomalies[:5]:
+        print('NOTE: C04 message-level anomaly (diagnostic, not a verdict): %s P=%s %s at collective %s' % (a['algo'], a['P'], ','.join(a['clauses']), a['at_event']))
 
 
 REGISTRY = {'C04': check_C04}
